@@ -185,7 +185,10 @@ func TestC04Clock(t *testing.T) {
 func TestC04Bucket(t *testing.T) {
 	// (*WithMeta is not "the regular write API": a caller-supplied CAS next to a frozen clock can
 	// coincide with the next value the clock hands out, which says nothing about the clock)
-	pr := &Profile{MultiHandle: true, Purge: 1, Reopen: 2, Keys: []string{"a", "b"}, Ops: scale(allDocOps, map[string]int{"SetWithMeta": 0, "DeleteWithMeta": 0})}
+	pr := &Profile{MultiHandle: true, Purge: 1, Reopen: 2, Keys: []string{"a", "b"}, Ops: scale(allDocOps, map[string]int{"SetWithMeta": 2, "DeleteWithMeta": 2}),
+		// (only with a CAS far ahead of any clock reading: such an import must not pull the CAS
+		// of later regular writes with it, nor make one of them go backwards)
+		MetaCasW: map[string]int{"future": 1}}
 	var restore func()
 	var globalMax uint64
 	var other *World
